@@ -264,6 +264,26 @@ def _triangulate_concave_polygon(polygon: Polygon) -> numpy.ndarray:
     triangles = numpy.empty((triangle_count, 3, 2))
     triangle_index = 0
 
+    # A vertex can be listed twice in a row,
+    # such as a triangle in a table of quadrilaterals that repeats its last node
+    # or a cell with one edge collapsed to a point.
+    # Every diagonal to or from such a vertex lies along an edge
+    # so ear clipping can not make progress.
+    # The repeated vertex is clipped off first as a triangle without any area.
+    coords = polygon.exterior.coords[:-1]
+    i = 0
+    while len(coords) > 3 and i < len(coords):
+        following = (i + 1) % len(coords)
+        if coords[i] == coords[following]:
+            triangles[triangle_index] = [coords[i - 1], coords[i], coords[following]]
+            triangle_index += 1
+            del coords[following]
+            i = 0
+        else:
+            i += 1
+    if triangle_index > 0:
+        polygon = Polygon(coords)
+
     # Note that shapely polygons with n vertices will be closed, and thus have
     # n+1 coordinates. We trim that superfluous coordinate off in the next line
     while len(polygon.exterior.coords) > 4:
